@@ -20,10 +20,6 @@ spec fn equiv(d: DFA, x: u32, y: u32) -> bool { forall|w: Seq<InpId>| nacc(d, x,
 #[verifier::opaque]
 spec fn live(d: DFA) -> bool { forall|q: u32| #[trigger] is_end(d, q) ==> exists|w: Seq<InpId>| nacc(d, q, w) }
 
-/// every state has a row (possibly an empty one)
-#[verifier::opaque]
-spec fn rows_total(d: DFA) -> bool { forall|q: u32| #[trigger] is_end(d, q) ==> d.transitions@.contains_key(q) }
-
 /// no two equivalent states are in different blocks
 #[verifier::opaque]
 spec fn ner_ok(d: DFA, p: Seq<ISet<u32>>, pt: ISet<SetId>) -> bool {
@@ -388,12 +384,6 @@ proof fn lemma_live_r(d: DFA, g: Stages)
         lemma_sim(d, g, s, w);
         assert(tacc(g.tabf, u, g.r2, w));
     }
-}
-
-/// every state is reached from the start state by some word
-#[verifier::opaque]
-spec fn reach_ok(d: DFA) -> bool {
-    forall|q: u32| #[trigger] is_end(d, q) ==> exists|w: Seq<InpId>| trun(d.transitions@, d.starting_state, w) == Some(q)
 }
 
 spec fn reach_r(tab: Map<u32, Map<InpId, u32>>, start: u32) -> bool {
